@@ -29,7 +29,7 @@ from fortls.parsers.internal.use import Use  # noqa: E402
 
 PART, NPART = part(), npart()
 THOROUGH = os.environ.get("VERIF_TIER", "quick") == "thorough"
-SRV = ws.make_server(("--incremental_sync", "--disable_autoupdate", "--max_line_length", "60"))
+SRV = ws.make_server(("--incremental_sync", "--disable_autoupdate", "--max_line_length", "60", "--max_comment_line_length", "80"))
 R = ws.ROOT
 FAIL = []
 
@@ -200,6 +200,10 @@ def variants():
     i = idx("    tmp = a")
     long_line = "    tmp = a + 0 + 0 + 0 + 0 + 0 + 0 + 0 + 0 + 0 + 0 + 0 + 0 + 0 + 0 + 0 + 0"
     V.append(("long-line", ins(L, i + 1, [long_line]), [(i + 1, 2, r"Line length exceeds")]))
+    # a code line longer than max_line_length (60) but within max_comment_line_length (80)
+    V.append(("long-line:between-limits", ins(L, i + 1, [long_line[:70]]), [(i + 1, 2, r"Line length exceeds")]))
+    long_comment = "    ! " + "c" * 84
+    V.append(("long-comment", ins(L, i + 1, [long_comment]), [(i + 1, 2, r"Comment line length exceeds")]))
     return V
 
 
